@@ -61,6 +61,8 @@ def op_table():
                            ("add_linterp newf %s lut.txt %%d" % inr, "gd_add_linterp"), ("add_multiply newf %s %s %%d" % (inr, inr), "gd_add_multiply"),
                            ("add_divide newf %s %s %%d" % (inr, inr), "gd_add_divide"), ("add_recip newf %s 2.5 %%d" % inr, "gd_add_recip"),
                            ("add_indir newf %s carray %%d" % inr, "gd_add_indir"), ("add_sindir newf %s sarray %%d" % inr, "gd_add_sindir"),
+                           ("add_clincom newf 1 %s %%d" % inr, "gd_add_clincom"), ("add_cpolynom newf 2 %s %%d" % inr, "gd_add_cpolynom"),
+                           ("add_crecip newf %s 2 %%d" % inr, "gd_add_crecip"), ("add_crecip89 newf %s 2 %%d" % inr, "gd_add_crecip89"),
                            ("add_spec newf%%20CONST%%20UINT8%%201 %d", "gd_add_spec"), ("add_entry newf 16 1 %d", "gd_add")):
             add(line % g, name, "medit %d" % g)
         add("add_raw newr 1 1 %d" % g, "gd_add_raw", "dedit %d" % g)
@@ -69,7 +71,14 @@ def op_table():
                            ("madd_bit %s newm raw 1 2", "gd_madd_bit"), ("madd_string %s newm v", "gd_madd_string"),
                            ("madd_carray %s newm 0x88 2 0x88", "gd_madd_carray"), ("madd_sarray %s newm 2", "gd_madd_sarray"),
                            ("madd_alias %s newm raw", "gd_madd_alias"), ("madd_lincom %s newm 1 raw", "gd_madd_lincom"),
-                           ("madd_polynom %s newm 2 raw", "gd_madd_polynom")):
+                           ("madd_polynom %s newm 2 raw", "gd_madd_polynom"), ("madd_entry %s newm 16 1", "gd_madd"),
+                           ("madd_clincom %s newm 1 raw", "gd_madd_clincom"), ("madd_cpolynom %s newm 2 raw", "gd_madd_cpolynom"),
+                           ("madd_crecip %s newm raw 2", "gd_madd_crecip"), ("madd_crecip89 %s newm raw 2", "gd_madd_crecip89"),
+                           ("madd_divide %s newm raw r16", "gd_madd_divide"), ("madd_multiply %s newm raw r16", "gd_madd_multiply"),
+                           ("madd_indir %s newm r16 carray", "gd_madd_indir"), ("madd_sindir %s newm r16 sarray", "gd_madd_sindir"),
+                           ("madd_linterp %s newm raw lut.txt", "gd_madd_linterp"), ("madd_mplex %s newm raw r16 1 2", "gd_madd_mplex"),
+                           ("madd_recip %s newm raw 2.5", "gd_madd_recip"), ("madd_sbit %s newm raw 1 2", "gd_madd_sbit"),
+                           ("madd_window %s newm raw r16 1", "gd_madd_window")):
             add(line % par, name, "medit %d" % g)
         add("madd_spec newm%%20CONST%%20UINT8%%201 %s" % par, "gd_madd_spec", "medit %d" % g)
     # alter: fields of fragment 0 and 1
@@ -78,7 +87,9 @@ def op_table():
                           ("alter_const const 0x28", "gd_alter_const", 0), ("alter_const sconst 0x28", "gd_alter_const", 1),
                           ("alter_carray carray 0x28 6", "gd_alter_carray", 0), ("alter_carray scarray 0x28 6", "gd_alter_carray", 1),
                           ("alter_sarray sarray 6", "gd_alter_sarray", 0), ("alter_sarray ssarray 6", "gd_alter_sarray", 1),
-                          ("alter_polynom poly 1 !", "gd_alter_polynom", 0), ("alter_recip recip ! 7", "gd_alter_recip", 0),
+                          ("alter_polynom poly 1 !", "gd_alter_polynom", 0), ("alter_lincom lincom 1 raw", "gd_alter_lincom", 0),
+                          ("alter_clincom lincom 1 raw", "gd_alter_clincom", 0), ("alter_cpolynom poly 1 !", "gd_alter_cpolynom", 0),
+                          ("alter_crecip recip ! 7", "gd_alter_crecip", 0), ("alter_crecip89 recip ! 7", "gd_alter_crecip89", 0), ("alter_recip recip ! 7", "gd_alter_recip", 0),
                           ("alter_mplex mplex ! ! 2 5", "gd_alter_mplex", 0), ("alter_window win ! ! 2", "gd_alter_window", 0),
                           ("alter_multiply mult r16 !", "gd_alter_multiply", 0), ("alter_divide div r16 !", "gd_alter_divide", 0),
                           ("alter_indir indir raw !", "gd_alter_indir", 0), ("alter_sindir sindir raw !", "gd_alter_sindir", 0),
@@ -153,6 +164,43 @@ def parse_fdump(lines):
     return d
 
 
+FRAGNAME = {0: "/format", 1: "/sub/format1", 2: "/pre/format2"}
+
+
+def parse_meta(lines):
+    """per-fragment (keyed by the fragment's file name: indices are renumbered by include/uninclude) metadata as seen
+    through a handle: fragment attributes, every entry with its parameters, scalar values (they live in the format
+    file), alias targets, hidden flags, the reference field"""
+    names = {}
+    for l in lines:
+        m = re.match(r"FR (\d+) (\S+) ", l)
+        if m:
+            names[int(m.group(1))] = m.group(2)
+    meta = {}
+    cur = None
+    k = 0
+    for l in lines:
+        m = re.match(r"FR (\d+) (\S+) (.*) parent (-?\d+) (.*)$", l)
+        if m:
+            meta.setdefault(m.group(2), set()).add("FR %s parent %s %s" % (m.group(3), names.get(int(m.group(4)), "-"), m.group(5)))
+            continue
+        m = re.match(r"ref (\S+) ", l)
+        if m:
+            meta.setdefault(names.get(0, "/format"), set()).add("ref " + m.group(1))
+            continue
+        m = re.match(r"E (\S+) hidden (-?\d+) fi (-?\d+)$", l)
+        if m:
+            cur = (m.group(1), names.get(int(m.group(3)), "?"), m.group(2)); k = 0
+            continue
+        if cur and l.startswith(" "):
+            k += 1
+            if k == 1 or l.startswith(" carr") or l.startswith(" sarr") or l.startswith(" alias->"):
+                meta.setdefault(cur[1], set()).add("%s h%s |%s" % (cur[0], cur[2], re.sub(r" frag -?\d+", "", l)))
+            if k >= 2:
+                cur = None
+    return meta
+
+
 def main():
     chk = vlib.Check("C11")
     rc, tout = vlib.sh("python3 %s/translate/tr_api.py" % V)
@@ -207,7 +255,7 @@ def main():
         if mode == "RDONLY" and (p0, p1) not in (("none", "none"), ("all", "none"), ("none", "all"), ("format", "data")) and not chk.thorough:
             continue
         cases.append({"id": "P%d" % len(cases), "mode": mode, "p0": p0, "p1": p1, "line": line, "name": name, "model": model,
-                      "cmds": ["fdump", "op " + line, "close", "fdump"]})
+                      "cmds": ["dump", "op " + line, "close", "reopen RDONLY", "dump"]})
     res = c10.run_cases(exe, cases)
     chk.cov["evaluations"] = len(cases)
     viol = {}
@@ -236,7 +284,14 @@ def main():
             model_bad.append((what, "no op result")); continue
         ret, err, lvl = got
         changed = sorted(p for p in set(before) | set(after) if before.get(p) != after.get(p))
-        ch_meta = sorted(g for g in (0, 1, 2) if any(p in META[g] for p in changed))
+        mb, ma = parse_meta(parts[0].split("\n")), parse_meta(parts[1].split("\n"))
+        # metadata of a fragment changed = what a fresh handle sees of it differs, or its format file appeared/disappeared
+        # (a rewrite of the file with the same content in another layout is not a change of the metadata)
+        if c["mode"] == "RDONLY":
+            ch_meta = sorted(g for g in (0, 1, 2) if any(p in META[g] for p in changed))
+        else:
+            ch_meta = sorted(g for g in (0, 1, 2) if (FRAGNAME[g] in mb and FRAGNAME[g] in ma and mb[FRAGNAME[g]] != ma[FRAGNAME[g]])
+                             or any((p in before) != (p in after) for p in META[g]))
         ch_data = sorted(set(frag_of_path(p) for p in changed if p not in META[0] | META[1] | META[2] and not p.endswith("/") and p != "sub/newfmt"))
         kind = cls.get(c["name"], "U")
         nontrivial.add((c["name"], c["mode"], c["p0"], c["p1"], err, tuple(changed)))
@@ -252,11 +307,12 @@ def main():
                 bad = True
                 V_("C11/rdonly-not-refused/%s" % c["name"], "%s returns %d instead of GD_E_ACCMODE through a read-only handle" % (what, err), c, rp)
         else:
-            for g, p in ((0, c["p0"]), (1, c["p1"])):
-                if p in ("format", "all") and g in ch_meta and c["name"] not in ("gd_alter_protection", "gd_rewrite_fragment"):
+            # fragment 2 (pre/format2) has no /PROTECT directive of its own: it inherits fragment 0's level
+            for g, p in ((0, c["p0"]), (1, c["p1"]), (2, c["p0"])):
+                if p in ("format", "all") and g in ch_meta and c["name"] != "gd_alter_protection":
                     bad = True
                     V_("C11/format-protected-changed/%s" % c["name"], "%s changed the metadata of format-protected fragment %d (%s), error %d" % (
-                        what, g, [x for x in changed if x in META[g]], err), c, rp)
+                        what, g, sorted(mb.get(FRAGNAME[g], set()) ^ ma.get(FRAGNAME[g], set()))[:4], err), c, rp)
                 if p in ("data", "all") and g in ch_data:
                     bad = True
                     V_("C11/data-protected-changed/%s" % c["name"], "%s changed/created/deleted data files of data-protected fragment %d (%s), error %d" % (
@@ -269,7 +325,7 @@ def main():
             mm = [int(x) for x in m.group(2).split(",") if x]
             md = [int(x) for x in m.group(3).split(",") if x]
             agree = (err == ERR[mres]) if mres in ERR else (err not in (0, -13, -22))
-            region_ok = (set(ch_meta) <= set(mm) or c["name"] == "gd_rewrite_fragment") and set(ch_data) <= set(md)
+            region_ok = set(ch_meta) <= set(mm) and set(ch_data) <= set(md)
             if not agree or not region_ok:
                 if not bad and c["name"] == "gd_madd_alias" and err == -22:
                     # the other face of the recorded defect: the wrong fragment's protection is tested
